@@ -400,6 +400,34 @@ func (r *run) request(t *rapid.T, kind string, small bool) {
 	r.nOK++
 }
 
+// republish hands one of the transactions published earlier to the wallet again.
+func (r *run) republish(t *rapid.T) {
+	s := r.Scenario
+	var cands []*wire.MsgTx
+	seen := map[chainhash.Hash]bool{}
+	for _, h := range r.published {
+		if seen[h] {
+			continue
+		}
+		seen[h] = true
+		if tx := s.F.Chain.LookupTx(h); tx != nil && s.F.Chain.InMempool(h) {
+			cands = append(cands, tx)
+		}
+	}
+	if len(cands) == 0 {
+		return
+	}
+	sort.Slice(cands, func(i, j int) bool { return cands[i].TxHash().String() < cands[j].TxHash().String() })
+	tx := cands[rapid.IntRange(0, len(cands)-1).Draw(t, "republishWhich")]
+	err := s.F.W.PublishTransaction(tx, "")
+	s.C.Logf("PublishTransaction(%s) again -> %v", tx.TxHash().String()[:8], err)
+	if err != nil {
+		s.F.Violation("publishing %v a second time (backend: already in mempool) failed: %v", tx.TxHash(), err)
+	}
+	s.F.Quiesce()
+	s.C.Class("published-transaction-offered-again")
+}
+
 func (r *run) why(op wire.OutPoint, q walletsim.EligibleQuery) string {
 	for _, co := range r.Book.Coins(r.F.Chain) {
 		if co.OutPoint == op {
@@ -456,6 +484,18 @@ func TestC06EligibleInputs(t *testing.T) {
 		for i := 0; i < n; i++ {
 			kind := rapid.SampledFrom([]string{"create", "create", "send", "send", "send-with-input", "create-with-utxos", "fund-psbt"}).Draw(t, "request")
 			r.request(t, kind, false)
+			// a published transaction may be handed to the backend again, by the
+			// user or by the wallet itself when the connection comes back; the
+			// backend then answers that it already has it
+			switch rapid.IntRange(0, 5).Draw(t, "again") {
+			case 0:
+				r.republish(t)
+			case 1:
+				s.F.Connect()
+				s.F.Quiesce()
+				s.C.Logf("backend connection re-established (unconfirmed transactions are offered again)")
+				s.C.Class("resync-between-requests")
+			}
 		}
 		if r.nOK > 0 {
 			c.Class("some-request-succeeded")
